@@ -808,7 +808,13 @@ macro_rules! bfv_mod {
                     }
                     AOp::Reset => {
                         set_op("bfv:reset_atomic");
-                        a.reset_atomic(Ordering::Relaxed);
+                        // the trait method, or the deprecated inherent `reset` that forwards to it
+                        if (st.step + n) % 2 == 0 {
+                            a.reset_atomic(Ordering::Relaxed);
+                        } else {
+                            #[allow(deprecated)]
+                            a.reset(Ordering::Relaxed);
+                        }
                         st.vals.iter_mut().for_each(|x| *x = 0);
                     }
                     AOp::ParReset => {
